@@ -462,4 +462,271 @@ theorem closeness_formula (g : Graph V) (v : V) :
   rw [h, List.length_map]
   rfl
 
+/-! ### a shortest walk has fewer than `|V|` steps (pigeonhole), so the bound `k < |V|` of `levels` loses nothing -/
+
+/-- along a shortest walk of length `k` there are `k + 1` different vertices (one at each distance `0..k`) -/
+theorem shortest_witness (g : Graph V) (s : V) (k : Nat) (v : V) (h : reachIn g s k v)
+    (hmin : ∀ j, j < k → ¬ reachIn g s j v) :
+    ∃ xs : List V, xs.Nodup ∧ xs.length = k + 1 ∧ ∀ x, x ∈ xs → x ∈ g.verts ∧ ∃ j, j ≤ k ∧ reachIn g s j x := by
+  induction k generalizing v with
+  | zero => exact ⟨[v], by simp, rfl, fun x hx => by
+      rw [List.mem_singleton] at hx; subst hx; exact ⟨h.2, 0, Nat.le_refl 0, h⟩⟩
+  | succ k ih =>
+    obtain ⟨hv, u, hu, hr⟩ := h
+    have humin : ∀ j, j < k → ¬ reachIn g s j u := fun j hj hju =>
+      hmin (j + 1) (by omega) ⟨hv, u, hu, hju⟩
+    obtain ⟨xs, hnd, hlen, hall⟩ := ih u hr humin
+    refine ⟨v :: xs, List.nodup_cons.mpr ⟨?_, hnd⟩, by simp [hlen], ?_⟩
+    · intro hvx
+      obtain ⟨_, j, hj, hjr⟩ := hall v hvx
+      exact hmin j (by omega) hjr
+    · intro x hx
+      rcases List.mem_cons.mp hx with rfl | hx
+      · exact ⟨hv, k + 1, Nat.le_refl _, hv, u, hu, hr⟩
+      · obtain ⟨h1, j, hj, hjr⟩ := hall x hx
+        exact ⟨h1, j, by omega, hjr⟩
+
+theorem exists_min_reach (g : Graph V) (s v : V) (k : Nat) (h : reachIn g s k v) :
+    ∃ d, d ≤ k ∧ reachIn g s d v ∧ ∀ j, j < d → ¬ reachIn g s j v := by
+  induction k using Nat.strongRecOn with
+  | _ k ih =>
+    by_cases hex : ∃ j, j < k ∧ reachIn g s j v
+    · obtain ⟨j, hj, hr⟩ := hex
+      obtain ⟨d, hd, hrd, hmin⟩ := ih j hj hr
+      exact ⟨d, by omega, hrd, hmin⟩
+    · exact ⟨k, Nat.le_refl k, h, fun j hj hr => hex ⟨j, hj, hr⟩⟩
+
+/-- a shortest walk has fewer than `|V|` steps -/
+theorem shortest_lt (g : Graph V) (s : V) (k : Nat) (v : V) (h : reachIn g s k v)
+    (hmin : ∀ j, j < k → ¬ reachIn g s j v) : k < g.verts.length := by
+  obtain ⟨xs, hnd, hlen, hall⟩ := shortest_witness g s k v h hmin
+  have := List.Nodup.length_le_of_subset hnd (fun x hx => (hall x hx).1)
+  omega
+
+/-- `dist` without the bound: `some d` iff `d` is the length of a shortest walk, `none` iff there is no walk at all -/
+theorem dist_spec' (g : Graph V) (s v : V) (d : Nat) :
+    dist g s v = some d ↔ reachIn g s d v ∧ ∀ j, j < d → ¬ reachIn g s j v := by
+  rw [dist_spec]
+  exact ⟨fun h => ⟨h.2.1, h.2.2⟩, fun h => ⟨shortest_lt g s d v h.1 h.2, h.1, h.2⟩⟩
+
+theorem dist_none' (g : Graph V) (s v : V) : dist g s v = none ↔ ∀ k, ¬ reachIn g s k v := by
+  rw [dist_none]
+  constructor
+  · intro h k hr
+    obtain ⟨d, _, hrd, hmin⟩ := exists_min_reach g s v k hr
+    exact h d (shortest_lt g s d v hrd hmin) hrd
+  · intro h k _; exact h k
+
+/-! ### Chapman-Kolmogorov for walk counts; the numerators of the pair dependencies -/
+
+theorem walkCount_not_mem (g : Graph V) (s : V) (k : Nat) (v : V) (h : v ∉ g.verts) : walkCount g s k v = 0 := by
+  cases k <;> simp [walkCount, h]
+
+theorem nsum_add {β : Type} (l : List β) (f g : β → Nat) :
+    (l.map fun y => f y + g y).sum = (l.map f).sum + (l.map g).sum := by
+  induction l with
+  | nil => rfl
+  | cons a t ih => simp only [List.map_cons, List.sum_cons, ih]; omega
+
+theorem nsum_mul {β : Type} (l : List β) (c : Nat) (f : β → Nat) :
+    (l.map fun y => c * f y).sum = c * (l.map f).sum := by
+  induction l with
+  | nil => rfl
+  | cons a t ih => simp only [List.map_cons, List.sum_cons, ih, Nat.mul_add]
+
+theorem nsum_comm {β γ : Type} (l1 : List β) (l2 : List γ) (F : β → γ → Nat) :
+    (l1.map fun x => (l2.map fun y => F x y).sum).sum = (l2.map fun y => (l1.map fun x => F x y).sum).sum := by
+  induction l1 with
+  | nil => simp only [List.map_nil, List.sum_nil]; exact (natsum_zero l2 _ fun _ _ => rfl).symm
+  | cons a t ih =>
+    simp only [List.map_cons, List.sum_cons, ih]
+    rw [← nsum_add]
+
+theorem nsum_congr {β : Type} (l : List β) (f g : β → Nat) (h : ∀ x, x ∈ l → f x = g x) :
+    (l.map f).sum = (l.map g).sum := by
+  rw [List.map_congr_left h]
+
+theorem nsum_indicator (l : List V) (hl : l.Nodup) (f : V → Nat) (t : V) :
+    (l.map fun v => f v * (if t = v then 1 else 0)).sum = if t ∈ l then f t else 0 := by
+  induction l with
+  | nil => rfl
+  | cons a r ih =>
+    rw [List.nodup_cons] at hl
+    simp only [List.map_cons, List.sum_cons, ih hl.2, List.mem_cons]
+    by_cases h : t = a
+    · subst h; simp [hl.1]
+    · simp [h]
+
+/-- Chapman-Kolmogorov for walk counts: a walk of length `a + b` splits at its `a`-th vertex -/
+theorem walkCount_add (g : Graph V) (hn : g.verts.Nodup) (s t : V) (a b : Nat) :
+    walkCount g s (a + b) t = (g.verts.map fun v => walkCount g s a v * walkCount g v b t).sum := by
+  induction b generalizing t with
+  | zero =>
+    by_cases ht : t ∈ g.verts
+    · have : (g.verts.map fun v => walkCount g s a v * walkCount g v 0 t)
+          = (g.verts.map fun v => walkCount g s a v * (if t = v then 1 else 0)) := by
+        apply List.map_congr_left
+        intro v _
+        simp only [walkCount, ht, and_true]
+      rw [this, nsum_indicator g.verts hn, if_pos ht]; rfl
+    · rw [natsum_zero]
+      · exact walkCount_not_mem g s _ t ht
+      · intro v _; simp [walkCount, ht]
+  | succ b ih =>
+    by_cases ht : t ∈ g.verts
+    · have hL : walkCount g s (a + (b + 1)) t = ((nbrs g t).map (walkCount g s (a + b))).sum := by
+        show walkCount g s (a + b + 1) t = _
+        simp only [walkCount, ht, if_true]
+      rw [hL]
+      have hR : (g.verts.map fun v => walkCount g s a v * walkCount g v (b + 1) t)
+          = (g.verts.map fun v => ((nbrs g t).map fun u => walkCount g s a v * walkCount g v b u).sum) := by
+        apply List.map_congr_left
+        intro v _
+        simp only [walkCount, ht, if_true]
+        rw [← nsum_mul]
+      rw [hR, nsum_comm]
+      apply nsum_congr
+      intro u _
+      exact ih u
+    · rw [natsum_zero]
+      · exact walkCount_not_mem g s _ t ht
+      · intro v _; rw [walkCount_not_mem g v _ t ht, Nat.mul_zero]
+
+/-! ### the pair dependencies of all intermediate vertices sum to `distance - 1` -/
+
+/-- number of shortest `s`-`t` walks through `v` (`d` = the distance of `s` and `t`): `σ_sv · σ_vt` when
+`d(s,v) + d(v,t) = d`, else 0 -/
+def thru (g : Graph V) (s t : V) (d : Nat) (v : V) : Nat :=
+  match dist g s v with
+  | some a => if a ≤ d then walkCount g s a v * walkCount g v (d - a) t else 0
+  | none => 0
+
+/-- the part of `thru` contributed by the vertices at distance exactly `a` from `s` -/
+def thruAt (g : Graph V) (s t : V) (d a : Nat) (v : V) : Nat :=
+  if dist g s v = some a then walkCount g s a v * walkCount g v (d - a) t else 0
+
+theorem range_sum_single (n : Nat) (o : Option Nat) (F : Nat → Nat) :
+    ((List.range n).map fun a => if o = some a then F a else 0).sum =
+      match o with
+      | some a => if a < n then F a else 0
+      | none => 0 := by
+  cases o with
+  | none => exact natsum_zero _ _ fun a _ => by simp
+  | some a0 =>
+    induction n with
+    | zero => simp
+    | succ n ih =>
+      rw [List.range_succ, List.map_append, List.sum_append, ih]
+      simp only [List.map_cons, List.map_nil, List.sum_cons, List.sum_nil, Option.some.injEq]
+      by_cases h1 : a0 < n
+      · have : a0 ≠ n := by omega
+        simp [h1, this]; omega
+      · by_cases h2 : a0 = n
+        · subst h2; simp
+        · have : ¬ a0 < n + 1 := by omega
+          simp [h1, h2, this]
+
+theorem thru_eq_sum (g : Graph V) (s t : V) (d : Nat) (v : V) :
+    thru g s t d v = ((List.range (d + 1)).map fun a => thruAt g s t d a v).sum := by
+  unfold thruAt
+  rw [range_sum_single (d + 1) (dist g s v) (fun a => walkCount g s a v * walkCount g v (d - a) t)]
+  unfold thru
+  cases dist g s v with
+  | none => rfl
+  | some a => simp only [Nat.lt_succ_iff]
+
+theorem walkCount_eq_zero (g : Graph V) (s v : V) (k : Nat) (h : ¬ reachIn g s k v) : walkCount g s k v = 0 := by
+  rw [reachIn_iff_walkCount] at h; omega
+
+theorem thruAt_sum (g : Graph V) (hn : g.verts.Nodup) (s t : V) (d a : Nat) (hd : dist g s t = some d) (ha : a ≤ d) :
+    (g.verts.map (thruAt g s t d a)).sum = walkCount g s d t := by
+  have hd' := (dist_spec g s t d).mp hd
+  have hterm : ∀ v, v ∈ g.verts → thruAt g s t d a v = walkCount g s a v * walkCount g v (d - a) t := by
+    intro v _
+    unfold thruAt
+    by_cases h : dist g s v = some a
+    · rw [if_pos h]
+    · rw [if_neg h]
+      by_cases h1 : reachIn g s a v
+      · by_cases h2 : reachIn g v (d - a) t
+        · exfalso
+          by_cases hex : ∃ j, j < a ∧ reachIn g s j v
+          · obtain ⟨j, hj, hr⟩ := hex
+            exact hd'.2.2 (j + (d - a)) (by omega) (reachIn_trans g s v t j (d - a) hr h2)
+          · exact h ((dist_spec g s v a).mpr ⟨by omega, h1, fun j hj hr => hex ⟨j, hj, hr⟩⟩)
+        · rw [walkCount_eq_zero g v t _ h2, Nat.mul_zero]
+      · rw [walkCount_eq_zero g s v _ h1, Nat.zero_mul]
+  rw [nsum_congr _ _ _ hterm, ← walkCount_add g hn s t a (d - a)]
+  congr 1; omega
+
+theorem nsum_const {β : Type} (l : List β) (c : Nat) : (l.map fun _ => c).sum = l.length * c := by
+  induction l with
+  | nil => simp
+  | cons a t ih => simp only [List.map_cons, List.sum_cons, ih, List.length_cons, Nat.succ_mul]; omega
+
+theorem thru_total (g : Graph V) (hn : g.verts.Nodup) (s t : V) (d : Nat) (hd : dist g s t = some d) :
+    (g.verts.map (thru g s t d)).sum = (d + 1) * walkCount g s d t := by
+  have h1 : (g.verts.map (thru g s t d)) = g.verts.map fun v => ((List.range (d + 1)).map fun a => thruAt g s t d a v).sum :=
+    List.map_congr_left fun v _ => thru_eq_sum g s t d v
+  rw [h1, nsum_comm]
+  rw [nsum_congr _ _ (fun _ => walkCount g s d t) fun a ha => thruAt_sum g hn s t d a hd (by have := List.mem_range.mp ha; omega)]
+  rw [nsum_const, List.length_range]
+
+theorem nsum_filter_ne (l : List V) (hl : l.Nodup) (x : V) (hx : x ∈ l) (f : V → Nat) :
+    (l.map f).sum = f x + ((l.filter (· ≠ x)).map f).sum := by
+  induction l with
+  | nil => cases hx
+  | cons a r ih =>
+    rw [List.nodup_cons] at hl
+    by_cases h : a = x
+    · subst h
+      have : (a :: r).filter (· ≠ a) = r := by
+        rw [List.filter_cons]
+        simp only [ne_eq, not_true_eq_false, decide_false, Bool.false_eq_true, if_false]
+        rw [List.filter_eq_self]
+        intro y hy
+        simp only [decide_eq_true_eq]
+        intro hya; subst hya; exact hl.1 hy
+      rw [this]; rfl
+    · have hx' : x ∈ r := by
+        rcases List.mem_cons.mp hx with h' | h'
+        · exact absurd h'.symm h
+        · exact h'
+      rw [List.filter_cons]
+      simp only [ne_eq, h, not_false_eq_true, decide_true, if_true, List.map_cons, List.sum_cons, ih hl.2 hx']
+      omega
+
+theorem dist_self (g : Graph V) (s : V) (hs : s ∈ g.verts) : dist g s s = some 0 :=
+  (dist_spec g s s 0).mpr ⟨List.length_pos_of_mem hs, ⟨rfl, hs⟩, fun j hj => by omega⟩
+
+/-- the numerators over all vertices other than `s` and `t` -/
+theorem thru_others (g : Graph V) (hn : g.verts.Nodup) (s t : V) (hst : s ≠ t) (d : Nat) (hd : dist g s t = some d) :
+    (((g.verts.filter (· ≠ s)).filter (· ≠ t)).map (thru g s t d)).sum = (d - 1) * walkCount g s d t := by
+  have hd' := (dist_spec g s t d).mp hd
+  have hs : s ∈ g.verts := reachIn_mem g t d s (reachIn_symm g s t d hd'.2.1)
+  have ht : t ∈ g.verts := reachIn_mem g s d t hd'.2.1
+  have hts : thru g s t d s = walkCount g s d t := by
+    unfold thru
+    rw [dist_self g s hs]
+    simp [walkCount, hs]
+  have htt : thru g s t d t = walkCount g s d t := by
+    unfold thru
+    rw [hd]
+    simp [walkCount, ht]
+  have e1 := nsum_filter_ne g.verts hn s hs (thru g s t d)
+  have ht' : t ∈ g.verts.filter (· ≠ s) := List.mem_filter.mpr ⟨ht, by simpa using fun h => hst h.symm⟩
+  have e2 := nsum_filter_ne (g.verts.filter (· ≠ s)) (hn.filter _) t ht' (thru g s t d)
+  have e3 := thru_total g hn s t d hd
+  cases d with
+  | zero => exact absurd hd'.2.1.1.symm hst
+  | succ e =>
+    rw [hts] at e1; rw [htt] at e2
+    rw [e1, e2] at e3
+    simp only [Nat.add_sub_cancel]
+    have : (e + 1 + 1) * walkCount g s (e + 1) t = e * walkCount g s (e + 1) t + 2 * walkCount g s (e + 1) t := by
+      rw [← Nat.add_mul]
+    rw [this] at e3
+    generalize e * walkCount g s (e + 1) t = m at *
+    omega
+
 end C20
